@@ -247,7 +247,7 @@ func TestVerifC16Log(t *testing.T) {
 	rep.SetRule("seeded sequential programs on a real commitLog with ConcurrencyControl: single-message Append with expected offset equal/stale/future/0/-1, Close+New, Truncate above the HW, SetHighWatermark, 5 MaxSegmentBytes values; after every Append: ErrIncorrectOffset iff expected not in {-1, next}, returned offset = next, on reject NewestOffset and the parsed segment files unchanged; final content = accepted messages; non-trivial = program had accepts and rejects of every class, rolled a segment and reopened or truncated; distinct = program text")
 	rep.Assume("one message per Append and one appender at a time, as the partition's message loop guarantees for logs with concurrency control")
 	root := kit.NewRNG(kit.Mix(kit.Seed(), 0xC16A))
-	nprog := kit.Scale(300, 5000)
+	nprog := kit.Scale(600, 8000)
 	seeds := make([]uint64, nprog)
 	for i := range seeds {
 		seeds[i] = root.Uint64()
@@ -356,7 +356,7 @@ func TestVerifC16LogRacing(t *testing.T) {
 	rep.SetRule("G in {2..16} goroutines race to Append single messages (serialised by a harness mutex like the partition's single message loop; arrival order decided by the scheduler) with expected offsets guessed from their own last success / NewestOffset()+1 read outside the mutex, while checkAndPerformSplit, an uncommitted tailing reader and NewestOffset pollers run concurrently under -race; same per-Append oracle (segment bytes instead of a full parse on reject) plus final content and reader output; non-trivial = some offset had >=2 competing equal guesses with exactly one winner, and a segment rolled; distinct = (G, segment size, accepted, rejected)")
 	rep.Assume("one message per Append and one appender at a time, as the partition's message loop guarantees for logs with concurrency control")
 	root := kit.NewRNG(kit.Mix(kit.Seed(), 0xC16B))
-	runs := kit.Scale(40, 500)
+	runs := kit.Scale(80, 800)
 	for i := 0; i < runs && rep.NumViolations() < 4; i++ {
 		rng := root.Fork(uint64(i))
 		g := []int{2, 3, 4, 6, 8, 12, 16}[rng.Intn(7)]
@@ -420,8 +420,18 @@ func TestVerifC16LogRacing(t *testing.T) {
 		bg.Add(1)
 		go func() {
 			defer bg.Done()
+			// a reader can only be opened once the log holds something
+			for l.NewestOffset() < 0 {
+				select {
+				case <-ctx.Done():
+					return
+				default:
+					time.Sleep(50 * time.Microsecond)
+				}
+			}
 			r, err := l.NewReader(0, true)
 			if err != nil {
+				rep.Violation("C16:log:reader-open", fmt.Sprintf("NewReader(0, uncommitted) on a non-empty log failed: %v", err), nil)
 				return
 			}
 			hb := make([]byte, 28)
